@@ -30,6 +30,19 @@ def cases(tier, seed):
                                        [["iter", 9], ["local", 6], ["iter", 25], ["solve"]],      # the global search goes on after a local refinement
                             "params_how": ["ctor", "assign", "positional", "assign"][(rep + m) % 4],
                             "m_type": ["int", "np.int64", "int", "np.int32", "int", "np.intp", "np.uint8"][(rep * 3 + m + N) % 7]})
+    # boxes with extremely unequal sides (one axis 1e11..1e15 times longer than another): the grid is per axis, so every density stays exact
+    for i in range(16 if tier == "quick" else 400):
+        rng = scenario.rng_for(seed, "C20U", i)
+        N = int(rng.integers(2, 5))
+        m = int(rng.integers(6, 13))
+        sides = 10 ** rng.uniform(-1, 1, N)
+        sides[int(rng.integers(N))] *= 10 ** rng.uniform(11, 15)
+        lo = [float(v) for v in rng.uniform(-1, 1, N) * np.minimum(sides, 1e3)]
+        hi = [l + float(s) for l, s in zip(lo, sides)]
+        obj = scenario.gen_objective(rng, N, ["cones", "sines", "linear", "wells"])
+        out.append({"N": N, "lower": lo, "upper": hi, "box": "unequal", "obj": obj, "r": float(rng.choice([2.0, 3.0])),
+                    "eps": max(2.0 ** (-m), scenario.eps_floor(N, m)) * 1.01, "iters": 60, "m": m, "refine": False, "pattern": [["solve"]],
+                    "params_how": "ctor", "m_type": "int", "unequal": True})
     # one SolverParameters object reused for a sweep over densities: the user changes p.evolventDensity between Solvers
     nsw = 12 if tier == "quick" else 600
     for i in range(nsw):
@@ -109,7 +122,7 @@ def run_case(scn):
     except Exception:
         dens = None
     grid_violations(glog, lo, side, m, dens, viol, cells)
-    obs = {"runs": 1, "trials": len(glog), "distinct_cells": len(cells), "densities": [m], "dims": [scn["N"]],
+    obs = {"runs": 1, "runs_on_boxes_with_extremely_unequal_sides": int(bool(scn.get("unequal"))), "trials": len(glog), "distinct_cells": len(cells), "densities": [m], "dims": [scn["N"]],
            "params_" + scn.get("params_how", "ctor"): 1, "density_type_" + scn.get("m_type", "int"): 1}
     ll = [e["i"] for e in t.log if e["ph"] == "l"]
     if ll:
@@ -126,7 +139,7 @@ def finalize(obs, tier, stats):
     if obs.get("trials", 0) < 3000:
         return "too few trials", {}
     miss = [k for k in ("params_ctor", "params_assign", "params_positional", "sweeps_over_one_parameters_object", "density_type_int",
-                        "density_type_np.int64", "density_type_np.int32", "density_type_np.intp", "density_type_np.uint8", "global_trials_after_a_refinement") if not obs.get(k)]
+                        "density_type_np.int64", "density_type_np.int32", "density_type_np.intp", "density_type_np.uint8", "global_trials_after_a_refinement", "runs_on_boxes_with_extremely_unequal_sides") if not obs.get(k)]
     if miss:
         return "ways of configuring the density never exercised: %s" % miss, {}
     return None, {}
